@@ -306,6 +306,65 @@ def table(tier: str, stats: Stats) -> list[Violation]:
     return list(viols.values())
 
 
+def multikey(stats: Stats) -> list[Violation]:
+    """Label / annotation criteria with TWO keys (every ordered pair of criterion kinds) x every state of the two keys:
+    all criteria have to hold, whatever their order in the declaration; for every family of handlers."""
+    viols: dict[str, Violation] = {}
+    resource = resource_of(KEX)
+    logger = logging.getLogger('kv')
+    crits = [c for c in CRITERIA if c != 'none']
+    metas = [_A, 'x', '']
+
+    async def fn(**_: Any) -> None:
+        return None
+    for where in ('labels', 'annotations'):
+        for c1, c2 in itertools.product(crits, crits):
+            for kind in ('create', 'event', 'daemon', 'index'):
+                reg = kopf.OperatorRegistry()
+                deco = getattr(kopf, kind) if kind in ('daemon', 'index') else getattr(kopf.on, kind)
+                import warnings
+                with warnings.catch_warnings():
+                    warnings.simplefilter('ignore')
+                    deco('kopfexamples', id='h', registry=reg, **{where: {'k1': CRITERIA[c1], 'k2': CRITERIA[c2]}})(fn)
+                for v1, v2 in itertools.product(metas, metas):
+                    d = {k: v for k, v in (('k1', v1), ('k2', v2)) if v is not _A}
+                    meta: dict[str, Any] = {'name': 'a', 'namespace': 'ns', 'uid': 'u'}
+                    if d:
+                        meta[where] = d
+                    raw = {'apiVersion': 'kopf.dev/v1', 'kind': 'KopfExample', 'metadata': meta, 'spec': {'x': 1}}
+                    body = bodies.Body(raw)
+                    common: dict[str, Any] = dict(resource=resource, indices={}, logger=logger, patch=patches.Patch(), body=body, memo=None)
+                    if kind == 'create':
+                        ess = {'spec': {'x': 1}, **({'metadata': {where: d}} if d else {})}
+                        got = bool(reg._changing.get_handlers(causes.ChangingCause(
+                            **common, initial=False, reason=causes.Reason.CREATE, diff=diffs.diff(None, ess), old=None, new=ess)))  # type: ignore[arg-type]
+                        pre = reg._changing.prematch(causes.ChangingCause(
+                            **common, initial=False, reason=causes.Reason.CREATE, diff=diffs.diff(None, ess), old=None, new=ess))  # type: ignore[arg-type]
+                    elif kind == 'event':
+                        got = bool(reg._watching.get_handlers(causes.WatchingCause(**common, type='MODIFIED', event={'type': 'MODIFIED', 'object': raw})))  # type: ignore[arg-type,typeddict-item]
+                        pre = got
+                    elif kind == 'index':
+                        got = bool(reg._indexing.get_handlers(causes.IndexingCause(**common)))  # type: ignore[arg-type]
+                        pre = got
+                    else:
+                        got = bool(reg._spawning.get_handlers(causes.SpawningCause(**common, reset=False)))  # type: ignore[arg-type]
+                        pre = reg._spawning.requires_finalizer(causes.SpawningCause(**common, reset=False), excluded=set())  # type: ignore[arg-type]
+                    want = crit_ok(c1, v1) and crit_ok(c2, v2)
+                    stats.executions += 1
+                    stats.transitions.add(hash(('multikey', where, c1, c2, kind, repr(v1), repr(v2))))
+                    if got:
+                        stats.nontrivial.add(hash(('multikey', where, c1, c2, kind, repr(v1), repr(v2))))
+                    for what, val in (('selection', got), ('prematch/finalizer', pre)):
+                        if val != want:
+                            v = Violation('C15', 'wrong-selection',
+                                          f"{kind} handler with {where}={{k1: {c1}, k2: {c2}}} on an object with k1={'<absent>' if v1 is _A else repr(v1)}, "
+                                          f"k2={'<absent>' if v2 is _A else repr(v2)}: {what} says {val}, all criteria hold = {want}",
+                                          dict(kind='wrong-selection', cls='multi-key', where=where, direction='spurious' if val else 'missed', what=what),
+                                          scenario='table', labels=None)  # type: ignore[arg-type]
+                            viols.setdefault(v.key(), v)
+    return list(viols.values())
+
+
 def duplicates(stats: Stats) -> list[Violation]:
     """One function registered twice under the same id is invoked once; under different ids - once per id."""
     out: list[Violation] = []
@@ -401,7 +460,7 @@ def stealth_scenarios(tier: str) -> list[StealthScenario]:
 
 def run(tier: str, seed: int) -> CheckResult:
     stats = Stats()
-    viols = table(tier, stats) + duplicates(stats)
+    viols = table(tier, stats) + duplicates(stats) + multikey(stats)
     groups = [('stealth', stealth_scenarios(tier), 1 if tier == 'quick' else 2, 40.0 if tier == 'quick' else 400.0)]
     st2, v2, info, nscen = run_groups(groups, seed=seed)
     table_evals = stats.executions
@@ -429,7 +488,7 @@ def scenario_from(name: str, params: dict[str, Any]) -> Scenario:
 def reverify(v: Violation) -> bool:
     if v.scenario == 'table':
         st = Stats()
-        return any(x.key() == v.key() for x in table('thorough', st) + table('quick', st) + duplicates(st))
+        return any(x.key() == v.key() for x in table('thorough', st) + table('quick', st) + duplicates(st) + multikey(st))
     from kv.runner import default_reverify
     return default_reverify(v)
 
@@ -437,7 +496,7 @@ def reverify(v: Violation) -> bool:
 def replay(rec: dict[str, Any]) -> int:
     if rec['scenario'] == 'table':
         st = Stats()
-        viols = [v for v in table('thorough', st) + duplicates(st) if v.signature == rec['signature']]
+        viols = [v for v in table('thorough', st) + duplicates(st) + multikey(st) if v.signature == rec['signature']]
     else:
         env = execute(scenario_from(rec['scenario'], rec['params']), rec['labels'])
         viols = getattr(env, 'violations', [])
